@@ -40,7 +40,7 @@ fn kind_strategy(cram: bool) -> BoxedStrategy<Kind> {
 }
 
 fn case_strategy() -> BoxedStrategy<Case20> {
-    let doc = proptest::bool::weighted(0.25).prop_flat_map(|cram| {
+    let doc = proptest::bool::weighted(0.45).prop_flat_map(|cram| {
         (vec(kind_strategy(cram), 0..5), proptest::bool::weighted(0.3)).prop_map(move |(tests, in_dir)| D20 { cram, tests, in_dir })
     });
     (
@@ -51,10 +51,13 @@ fn case_strategy() -> BoxedStrategy<Case20> {
         vec(kind_strategy(false), 1..3),
         prop_oneof![8 => Just(0u8), 1 => 1u8..5],
         proptest::bool::weighted(0.3),
+        proptest::bool::weighted(0.35),
     )
-        .prop_map(|(mut docs, prepend_via, append_via, pre, post, fault, pretty)| {
-            // prepend / append documents are Markdown: a run that uses them has Markdown documents only
-            if prepend_via != 0 || append_via != 0 {
+        .prop_map(|(mut docs, prepend_via, append_via, pre, post, fault, pretty, mixed_formats)| {
+            // prepend / append documents are Markdown: a run that uses them has Markdown documents
+            // only; a run with mixed formats uses neither
+            let (prepend_via, append_via) = if mixed_formats { (0, 0) } else { (prepend_via, append_via) };
+            if prepend_via != 0 || append_via != 0 || !mixed_formats {
                 for d in docs.iter_mut() {
                     if d.cram {
                         d.cram = false;
